@@ -931,14 +931,14 @@ def int_range_table(check: Check, repo: Repo, rule: str = "INT-RANGE-TABLE") -> 
                 break
             r = parts[0]
             names = sorted({x.id for x in ast.walk(r) if isinstance(x, ast.Name)} - {"GRAPHQL_MIN_INT", "GRAPHQL_MAX_INT", "abs", "int", "float"})
-            if len(names) != 1:
-                continue
+            if len(names) != 1 or any(isinstance(x, (ast.Attribute, ast.Subscript)) for x in ast.walk(r)):
+                continue  # not a test of a plain number variable (e.g. the digits of a literal node)
             vec = []
             try:
                 for p in points:
                     vec.append(bool(Evaluator(repo, mod, {names[0]: p}).eval(r)))
-            except NotStatic as ex:
-                raise AnalysisError(f"{fn.name}: range test `{unparse(r)}` is not foldable: {ex}") from ex
+            except NotStatic:
+                continue  # not foldable over integers: nothing to say
             n += 1
             ok = vec == want or vec == [not w for w in want]
             wrong: list[int] = []
@@ -949,8 +949,8 @@ def int_range_table(check: Check, repo: Repo, rule: str = "INT-RANGE-TABLE") -> 
                 wrong = [p for p, v, w in zip(points, vec, ref) if v != w]
             check.ob(rule, t, f"{fn.name}: `{unparse(r)[:60]}`", ok,
                      "the interval [GRAPHQL_MIN_INT, GRAPHQL_MAX_INT]" if ok else f"decides {wrong} differently from the 32-bit range")
-    if n < 4:
-        raise AnalysisError(f"INT-RANGE-TABLE: only {n} range tests found")
+    if n < 1:
+        raise AnalysisError("INT-RANGE-TABLE: no range test found (that each Int role has one is INT-ATOMS / DOMAIN-GUARDS)")
 
 
 FLOAT_REPRESENTATIVES = [0.0, 1.0, -1.0, 1.5, -0.5, 100.0, 120.0, 1e16, 1e20, 1.5e20, 1e22, 1.25e100, 2.5e-10, 1e-07, 1.5e-05, 123456789.125, 1.7976931348623157e308, 5e-324]
